@@ -697,8 +697,8 @@ func gbC10CacheStore(c *engine.Ctx, p *engine.Prog) {
 		n := 0
 		for _, s := range f.CallsTo("tm2/pkg/store/types.(Store).Get") {
 			metered := false
-			for _, gt := range g.Gates(s) {
-				if isGctxNonNil(f, gt.Cond) && gt.OnTrue {
+			for _, ft := range gbFactsOf(g.Gates(s)) {
+				if x, isNilHolds, ok := gbIsNilCmp(ft); ok && !isNilHolds && engine.ObjOf(f.Info(), x) == paramObj(f, 0) {
 					metered = true
 				}
 			}
@@ -902,32 +902,15 @@ func gbC10Ante(c *engine.Ctx, p *engine.Prog) {
 		n := 0
 		for _, s := range f.CallsTo("tm2/pkg/store/types.NewInfiniteGasMeter", "var.NewInfiniteGasMeter") {
 			n++
-			gates := g.Gates(s)
 			ok := false
 			why := "an infinite meter may be installed only for block height 0 or under SkipGasMeteringKey"
-			var onTrue []engine.Gate
-			for _, gt := range gates {
-				if gt.OnTrue {
-					onTrue = append(onTrue, gt)
+			for _, ft := range gbFactsOf(g.Gates(s)) {
+				if ft.Pos && gbMeteringOffCond(f, ft.E, 1) {
+					ok = true
 				}
 			}
-			if len(onTrue) == 1 {
-				cond := ast.Unparen(onTrue[0].Cond)
-				if bx, isB := cond.(*ast.BinaryExpr); isB && bx.Op == token.EQL {
-					if call, isC := ast.Unparen(bx.X).(*ast.CallExpr); isC && strings.HasSuffix(gbCalleeName(info, call), ".BlockHeight") {
-						if v, isK := gbConstInt(info, bx.Y); isK && v == 0 {
-							ok = true
-						}
-					}
-				}
-				if id, isId := cond.(*ast.Ident); isId {
-					for _, r := range d.defs[info.ObjectOf(id)] {
-						if engine.MentionsName(r, "SkipGasMeteringKey") {
-							ok = true
-						}
-					}
-				}
-			}
+			_ = d
+			_ = info
 			c.Check("setgasmeter", f.Name+" infinite meter #"+strconv.Itoa(n), s.Pos(), ok, why)
 		}
 		c.Floor("setgasmeter infinite", n, 1)
@@ -1110,4 +1093,88 @@ func gbGasSource(d *gbDefs, info *types.Info, e ast.Expr) (clamped bool, src str
 	}
 	_, clamped = walk(e)
 	return clamped, src
+}
+
+// gbMeteringOffCond: e (evaluated in fn) being true implies "block height 0" or "the
+// SkipGasMeteringKey flag is set": `ctx.BlockHeight() == 0`, a variable defined from
+// ctx.Value(SkipGasMeteringKey{}), a disjunction of such, or a call of a private bool
+// predicate every true-capable return of which is itself such a condition.
+func gbMeteringOffCond(fn *engine.Fn, e ast.Expr, depth int) bool {
+	info := fn.Info()
+	d := gbCollectDefs(fn)
+	switch x := ast.Unparen(e).(type) {
+	case *ast.BinaryExpr:
+		if x.Op == token.LOR {
+			return gbMeteringOffCond(fn, x.X, depth) && gbMeteringOffCond(fn, x.Y, depth)
+		}
+		if x.Op == token.EQL {
+			for _, pr := range [][2]ast.Expr{{x.X, x.Y}, {x.Y, x.X}} {
+				if call, isC := ast.Unparen(pr[0]).(*ast.CallExpr); isC && strings.HasSuffix(gbCalleeName(info, call), ".BlockHeight") {
+					if v, isK := gbConstInt(info, pr[1]); isK && v == 0 {
+						return true
+					}
+				}
+			}
+		}
+	case *ast.Ident:
+		o := info.ObjectOf(x)
+		if o == nil || len(d.defs[o]) == 0 {
+			return false
+		}
+		for _, r := range d.defs[o] {
+			if !engine.MentionsName(r, "SkipGasMeteringKey") {
+				return false
+			}
+		}
+		return true
+	case *ast.CallExpr:
+		if depth <= 0 {
+			return false
+		}
+		cs := fn.SiteOf(x)
+		if cs == nil {
+			return false
+		}
+		fo, _ := cs.Callee.(*types.Func)
+		h := fn.Prog.FnOf(fo)
+		if h == nil || fo.Exported() {
+			return false
+		}
+		hg := h.Graph()
+		n, all := 0, true
+		engine.InspectBody(h, func(nd ast.Node) {
+			r, ok := nd.(*ast.ReturnStmt)
+			if !ok {
+				return
+			}
+			n++
+			if len(r.Results) != 1 {
+				all = false
+				return
+			}
+			res := ast.Unparen(r.Results[0])
+			if id, isId := res.(*ast.Ident); isId && id.Name == "false" {
+				return
+			}
+			if id, isId := res.(*ast.Ident); isId && id.Name == "true" {
+				good := false
+				if st := h.SiteOf(r); st != nil {
+					for _, ft := range gbFactsOf(hg.Gates(st)) {
+						if ft.Pos && gbMeteringOffCond(h, ft.E, depth-1) {
+							good = true
+						}
+					}
+				}
+				if !good {
+					all = false
+				}
+				return
+			}
+			if !gbMeteringOffCond(h, res, depth-1) {
+				all = false
+			}
+		})
+		return n > 0 && all
+	}
+	return false
 }
